@@ -226,9 +226,19 @@ def sentinel_dtype(ctx, chk):
                           ctx.where(INV))
             continue
         sent = []
-        while isinstance(v, App) and v.fn == "store":
+        selected = 0
+        while isinstance(v, App) and (v.fn == "store" or (v.fn in ("ite", "where") and len(v.args) == 3 and isinstance(v.args[1], App) and v.args[1].fn.startswith("nextafter"))):
+            if v.fn in ("ite", "where"):
+                # np.where(mask, sentinel, thresholds): the result is promoted to the common dtype of a float64 sentinel and the
+                # thresholds, so the sentinel survives whatever the dtype of the interpolated values
+                selected += 1
+                v = v.args[2]
+                continue
             sent.append(v.args[2])
             v = v.args[0]
+        if selected and not sent:
+            chk.hold("R03.2", "sentinel-dtype:" + method, "%d sentinel(s) selected with np.where (result promoted to float64)" % selected)
+            continue
         if not sent or not all(isinstance(x, App) and x.fn.startswith("nextafter") for x in sent):
             chk.unknown("R03.2", "inversion core (%s): sentinel stores not recognised" % method)
             continue
